@@ -9,6 +9,11 @@ NOTES = ('Every check is ./check <id> --tier quick|thorough: it rebuilds the har
          'small, vacuous harness, non-reproducing counterexample) and never a pass. VERIF_SEED only seeds non-deciding choices.')
 
 NOT_APPLICABLE = {
+    'C17': 'walker clause: the harness (stated chain, stated concrete walker operations, then ONE symbolic operation from {next, prev, start, end}, '
+           'compared with a plain-board model in every field) needs more than 18 GB and more than 850 s even for a four-move chain - each walker '
+           'step re-makes or un-makes moves on a board CBMC does not constant-fold - so no quick check fits the 900 s limit and none passed within '
+           'the thorough caps either; the list-text clauses need core::fmt over several moves (same wall as C08). Harness code is kept '
+           '(harness/src/c13.rs: walker_steps) but claims nothing (DESIGN.md section 6)',
     'C08': 'every clause needs the text produced by Display for RawBoard (about 70 nested core::fmt calls into a heap String): '
            'RawBoard::initial().as_fen() - a concrete board - did not finish 15 min of symbolic execution; the parser alone proves none of '
            'the clauses; no other technique is substituted (DESIGN.md section 6)',
@@ -109,10 +114,6 @@ claim('C14', 'Outcome filter table: exhaustive. Chain precedence: all board outc
       TB + 'As C13; S5 (Board::calc_outcome replaced by a symbolic outcome) in the precedence harness.', 'DESIGN.md C14')
 claim('C16', 'FULL x 64 squares x 2 colours: cell_attackers = men that could capture there (attackers_ref), is_cell_attacked = non-empty; is_check, '
       'checkers, is_opponent_king_attacked against the same definition. Loop-free, complete over all valid positions.', TB + S12N, 'DESIGN.md C16')
-claim('C17', 'Walker clause only: stated chains extended by one symbolic accepted move, then 6 symbolic walker operations (next, prev, start, end): '
-      'every returned pair = (position preceding move i in every field, move i), pos() tracks the cursor, the chain is untouched.',
-      TB + 'NOT decided: UCI list text, styled list text (numbering, status token) and from_uci_list replay - core::fmt over several moves exceeds '
-      'the budget; chains of at most 9 moves.', 'DESIGN.md C17')
 claim('C18', 'Relational, two runs of the real code on FULL: the mirrored position is valid and unchanged by validation; per move (by case): '
       'semilegal, legal (validate) and prefiltered legality of t in b equal those of mirror(t) in mirror(b); check status equal; calc_outcome equal '
       'with the winner swapped (S3); left-right mirror for positions without castling rights. Generators: pawn-only bound in quick, GEN(1) sink '
